@@ -11,7 +11,7 @@ def sanitize(s):
 
 def run(ctx):
     quick = ctx.tier == "quick"
-    ctx.rule = ("stress runs of a -race build on the REAL library: G goroutines (4, 16; thorough also 64 and GOMAXPROCS 2) call Generate, Entropy, Alphabet, "
+    ctx.rule = ("stress runs of a -race build on the REAL library: G goroutines (4, 16, and 12 on GOMAXPROCS 2; thorough up to 128) call Generate, Entropy, Alphabet, "
                 "SuccessProbability and Size for 1.5-6 s per configuration on the SAME values: three character recipes (class requirements, overlapping custom "
                 "sets), four wordlist recipes sharing one word list, the shared preset SFDigits1 (also called directly) and a constructed separator function "
                 "with a requirement; every data-race report is an event, every returned value is validated; non-trivial = a value returned by a concurrent call")
@@ -59,7 +59,7 @@ def run(ctx):
     drv = ctx.build_harness(race=True)
     # (goroutines, ms per configuration, GOMAXPROCS, source): "go" = a goroutine-safe source written in Go, so that writes into the
     # library's read buffers are visible to the race detector (the kernel's writes are not)
-    configs = ([(4, 1200, None, "os"), (16, 1500, None, "go")] if quick else
+    configs = ([(4, 1200, None, "os"), (16, 1500, None, "go"), (12, 800, "2", "go")] if quick else
                [(4, 6000, None, "os"), (16, 12000, None, "go"), (64, 12000, None, "os"), (16, 8000, "2", "go"), (8, 8000, "16", "os"), (32, 8000, None, "go"), (128, 6000, None, "go")])
     races = ctx.path("races.ndjson")
     cfiles, wfiles = [], []
@@ -95,7 +95,11 @@ def run(ctx):
                     nraces += 1
                     if nraces <= 40:
                         rf.write(json.dumps(dict(op="race", g=g, text=sanitize(b))) + "\n")
-            if "fatal error: concurrent map" in p.stderr or (p.returncode not in (0, 66) and "DATA RACE" not in p.stderr):
+            if p.returncode == 7 and "STRESS-HANG" in p.stderr:
+                rf.write(json.dumps(dict(op="hang", g=g, gomaxprocs=procs or "default", text=sanitize(p.stderr[p.stderr.index("STRESS-WATCHDOG"):][:1500]))) + "\n")
+            elif p.returncode == 8:
+                raise Undecided("a stress run did not finish in time without any goroutine waiting inside the library (machine too loaded?)")
+            elif "fatal error: concurrent map" in p.stderr or (p.returncode not in (0, 66) and "DATA RACE" not in p.stderr):
                 rf.write(json.dumps(dict(op="crash", g=g, rc=p.returncode, text=sanitize(p.stderr[-600:]))) + "\n")
     rv = ctx.validate("RaceTrace", races)
     cverd = ctx.validate_many("CharTrace", cfiles)
